@@ -323,7 +323,7 @@ pub fn gen_case(prop: &str, r: &Ref, ty: &str, s: &mut Src) -> Option<Case> {
                 None => Some(Case { input: Input::Value(v), label: "in-range".into(), single_fault: false, expect_err: None }),
             }
         }
-        "C18" => {
+        "C11" | "C18" => {
             if s.below(2) == 0 {
                 let b = gen_bytes(r, &source_types(r.d, ty), static_hint(r, ty), s);
                 Some(Case { input: Input::Bytes(b.bytes), label: format!("bytes:{}", b.label), single_fault: false, expect_err: None })
@@ -1011,8 +1011,50 @@ fn check_c17(ctx: &Ctx, ti: usize, r: &Ref, case: &Case) -> CaseResult {
     res
 }
 
+/// C11 (c): the module produced by the pdl_derive attribute macro behaves like the module
+/// included from the command-line tool's output, on every input.
+fn check_c11(ctx: &Ctx, ti: usize, _r: &Ref, case: &Case) -> CaseResult {
+    let t = &ctx.table.types[ti];
+    let mut res = CaseResult::default();
+    let Some(twin) = ctx.batch.descs[t.desc].twin else { return res };
+    let Some(tj) = ctx.type_index(twin, &t.name) else {
+        res.fails.push(fail("derive", "type-missing-in-derive-module", t.name.clone()));
+        return res;
+    };
+    let u = &ctx.table.types[tj];
+    match &case.input {
+        Input::Bytes(b) => {
+            ctx.note(ti, "dec", b);
+            let mut a = (t.dec)(b);
+            let mut d = (u.dec)(b);
+            a.alloc = 0;
+            d.alloc = 0;
+            let (ja, jd) = (serde_json::to_string(&a).unwrap_or_default(), serde_json::to_string(&d).unwrap_or_default());
+            if ja != jd {
+                res.fails.push(fail("decode", "derive-differs-from-cli", format!("cli {ja} derive {jd}")));
+            }
+            res.outcome = format!("dec:{}", a.decode.kind());
+            res.nontrivial = a.decode.is_ok();
+        }
+        Input::Value(v) => {
+            ctx.note(ti, "enc", v.to_string().as_bytes());
+            let a = (t.enc)(v, &[1, 2, 3]);
+            let d = (u.enc)(v, &[1, 2, 3]);
+            let (ja, jd) = (serde_json::to_string(&a).unwrap_or_default(), serde_json::to_string(&d).unwrap_or_default());
+            if ja != jd {
+                res.fails.push(fail("encode", "derive-differs-from-cli", format!("cli {ja} derive {jd}")));
+            }
+            res.outcome = format!("enc:{}", a.to_vec.kind());
+            res.nontrivial = true;
+        }
+        _ => {}
+    }
+    res
+}
+
 pub fn check_case(ctx: &Ctx, ti: usize, r: &Ref, case: &Case) -> CaseResult {
     match ctx.prop.as_str() {
+        "C11" => check_c11(ctx, ti, r, case),
         "C01" => check_c01(ctx, ti, r, case),
         "C02" => check_c02(ctx, ti, r, case),
         "C03" => check_c03(ctx, ti, r, case),
@@ -1068,6 +1110,7 @@ fn applicable(ctx: &Ctx, ti: usize, r: &Ref) -> bool {
         }
         "C06" => !r.d.descendants_of(&t.name).is_empty(),
         "C17" => ctx.batch.descs[t.desc].twin.is_some(),
+        "C11" => ctx.batch.descs[t.desc].twin.is_some() && ctx.batch.descs[t.desc].origin != "derive",
         _ => true,
     }
 }
